@@ -170,6 +170,18 @@ inductive ConvTail where
   | m | n | p
 deriving DecidableEq, Repr
 
+/-- one summand of a shape expression handed to `reshape` (`(B, c_i) + m`, `b + (c_o,) + p`, `data_shape`, …):
+    the tuples `b`, `m`, `n`, `p` / the scalars `B`, `c_i`, `c_o` returned by `_get_convolve_params`, or one of the two
+    shape arguments `_get_convolve_params` was called with -/
+inductive ConvShapeTerm where
+  | b | m | n | p | B | ci | co | dataShapeArg | filtShapeArg
+deriving DecidableEq, Repr
+
+/-- what a function passes to `_get_convolve_params` as data / filter shape: `<array>.shape` or its own shape parameter -/
+inductive ConvShapeSrc where
+  | arrayShape (a : ConvArr) | shapeParam
+deriving DecidableEq, Repr
+
 """
 
 _DIMS = {"B": "B", "c_o": "co", "c_i": "ci"}
@@ -196,6 +208,28 @@ def _lead_tail(e):
             and _is_name(e.right) and e.right.id in ("m", "n", "p"):
         return _DIMS[e.left.elts[0].id], _DIMS[e.left.elts[1].id], e.right.id
     raise T.Unsupported("normalised shape is not `(R1, R2) + T`: %s" % ast.dump(e)[:100])
+
+
+_TUPLES = {"b": "b", "m": "m", "n": "n", "p": "p"}
+_SCALARS = {"B": "B", "c_i": "ci", "c_o": "co"}
+
+
+def _shape_terms(e, params):
+    """a shape expression `T1 + T2 + …` with every summand one of b / m / n / p, a tuple of B / c_i / c_o, or the
+    function's own shape parameter (the one it handed to `_get_convolve_params`) -> list of ConvShapeTerm names"""
+    if isinstance(e, ast.BinOp) and isinstance(e.op, ast.Add):
+        return _shape_terms(e.left, params) + _shape_terms(e.right, params)
+    if _is_name(e) and e.id in _TUPLES:
+        return [_TUPLES[e.id]]
+    if _is_name(e) and e.id in params:
+        return [params[e.id]]
+    if isinstance(e, ast.Tuple) and e.elts and all(_is_name(x) and x.id in _SCALARS for x in e.elts):
+        return [_SCALARS[x.id] for x in e.elts]
+    raise T.Unsupported("shape expression outside the subset: %s" % ast.unparse(e)[:100])
+
+
+def _terms(l):
+    return "[" + ", ".join("ConvShapeTerm." + x for x in l) + "]"
 
 
 def _dtype_of(call):
@@ -302,7 +336,9 @@ def _nest(stmts, env, order, found, path):
 def _wiring(tree, fname, prefix, adjoint, shape_args, out):
     fn = T.find_function(tree, fname)
     body = [s for s in fn.body if not (isinstance(s, ast.Expr) and isinstance(s.value, ast.Constant))]
-    layout, alloc, final, found = {}, {}, {}, {}
+    layout, alloc, final, found, norm = {}, {}, {}, {}, {}
+    # the function's own shape parameter (if any) and what it stands for in `_get_convolve_params(<data shape>, <filter shape>, …)`
+    sparams = {a: t for a, t in zip(shape_args, ("dataShapeArg", "filtShapeArg")) if not a.endswith(".shape")}
     seen_loop = seen_slc = seen_params = seen_mode = False
     ret = None
     for s in body:
@@ -330,13 +366,17 @@ def _wiring(tree, fname, prefix, adjoint, shape_args, out):
                     if name in layout:
                         raise T.Unsupported("%s: %s normalised twice" % (fname, name))
                     layout[name] = _lead_tail(v.args[0])
+                    norm[name] = _shape_terms(v.args[0], sparams)
                 elif is_reshape and seen_loop:
-                    final[name] = ast.unparse(v.args[0])
+                    if final:
+                        raise T.Unsupported("%s: two reshapes after the loops" % fname)
+                    final[name] = (_shape_terms(v.args[0], sparams),) * 2
                 elif not seen_loop:
                     if name in layout:
                         raise T.Unsupported("%s: %s normalised twice" % (fname, name))
                     alloc[name] = _dtype_of(v)
                     layout[name] = _lead_tail(v.args[0])
+                    norm[name] = _shape_terms(v.args[0], sparams)
                 else:
                     raise T.Unsupported("%s: assignment to %s after the loops: %s" % (fname, name, ast.unparse(s)[:100]))
             elif name == "data_shape" or name == "filt_shape":
@@ -359,12 +399,18 @@ def _wiring(tree, fname, prefix, adjoint, shape_args, out):
                         raise T.Unsupported("%s: statement in the mode branches outside the subset: %s" % (fname, ast.unparse(t)[:100]))
                 alloc["output_kj:" + mo] = _dtype_of(_assign_in(br[mo], "output_kj"))
         elif isinstance(s, ast.If) and not adjoint and seen_loop and _is_name(s.test, "multi_channel"):
-            # final reshape of `_convolve` (numpy plumbing: validated by the correspondence)
+            # final reshape of `_convolve`: `output = output.reshape(<terms>)` in both branches of `if multi_channel:`
+            if final or len(s.body) != 1 or len(s.orelse) != 1:
+                raise T.Unsupported("%s: final reshape block outside the subset" % fname)
+            two = []
             for t in s.body + s.orelse:
                 if not (isinstance(t, ast.Assign) and len(t.targets) == 1 and _is_name(t.targets[0], "output")
                         and isinstance(t.value, ast.Call) and isinstance(t.value.func, ast.Attribute)
-                        and t.value.func.attr == "reshape" and _is_name(t.value.func.value, "output")):
+                        and t.value.func.attr == "reshape" and _is_name(t.value.func.value, "output")
+                        and len(t.value.args) == 1 and not t.value.keywords):
                     raise T.Unsupported("%s: final reshape outside the subset: %s" % (fname, ast.unparse(t)[:100]))
+                two.append(_shape_terms(t.value.args[0], sparams))
+            final["output"] = tuple(two)
         elif isinstance(s, ast.For):
             if seen_loop:
                 raise T.Unsupported("%s: two loop nests" % fname)
@@ -388,6 +434,8 @@ def _wiring(tree, fname, prefix, adjoint, shape_args, out):
             raise T.Unsupported("%s: %s is not normalised to `(R1, R2) + T`" % (fname, a))
     if acc["arr"] not in alloc:
         raise T.Unsupported("%s: the accumulated array %s is not allocated in the function" % (fname, acc["arr"]))
+    if list(final) != [ret.id]:
+        raise T.Unsupported("%s: the returned array is not reshaped exactly once after the loops (%s)" % (fname, sorted(final)))
     pair = lambda ix: "(%s, %s)" % (_dim(ix[0]), _dim(ix[1]))
     lst = lambda l: "[" + ", ".join(_dim(x) for x in l) + "]"
     b = lambda x: "true" if x else "false"
@@ -429,6 +477,17 @@ def _wiring(tree, fname, prefix, adjoint, shape_args, out):
     da, dz = alloc[acc["arr"]]
     o("/-- %s: the accumulated array is allocated with `dtype=<this array>.dtype`, by np.zeros (true) / np.empty (false) -/\n"
       "def %sAccDtype : ConvArr := %s\ndef %sAccZeros : Bool := %s\n" % (src, prefix, _arr(da), prefix, b(dz)))
+    for a in ("data", "filt", "output"):
+        o("/-- %s: the shape expression `%s` is reshaped to / allocated with before the loops -/\ndef %sNorm_%s : List ConvShapeTerm := %s\n" % (
+            src, a, prefix, a, _terms(norm[a])))
+    fm, fs = final[ret.id]
+    o("/-- %s: the shape expression the returned array is reshaped to after the loops (multi_channel / single channel) -/\n"
+      "def %sFinalMc : List ConvShapeTerm := %s\ndef %sFinalSc : List ConvShapeTerm := %s\n" % (src, prefix, _terms(fm), prefix, _terms(fs)))
+    srcs = []
+    for a in shape_args:
+        srcs.append("ConvShapeSrc.arrayShape ConvArr.%s" % _ARRS[a[:-6]] if a.endswith(".shape") else "ConvShapeSrc.shapeParam")
+    o("/-- %s: the (data shape, filter shape) arguments of its `_get_convolve_params` call -/\n"
+      "def %sParamsArgs : ConvShapeSrc × ConvShapeSrc := (%s, %s)\n" % (src, prefix, srcs[0], srcs[1]))
     if adjoint:
         for mo, suf in (("full", "Full"), ("valid", "Valid")):
             da, dz = alloc["output_kj:" + mo]
@@ -643,6 +702,12 @@ inductive ConvShapeArg where
   | dataShape | filtShape
 deriving DecidableEq, Repr
 
+/-- the explicit `raise` statements of `_get_convolve_params`: channel-count check (multi_channel), length of `strides`,
+    the size test of mode 'valid', the `else` of the mode chain -/
+inductive ConvGuard where
+  | channel | stridesLen | validSize | badMode
+deriving DecidableEq, Repr
+
 """
 
 
@@ -650,8 +715,8 @@ class _Subst(ast.NodeTransformer):
     """`len(filt_shape)` -> lenF, `len(data_shape)` -> lenD (so that T.formula sees plain int variables)"""
 
     def visit_Call(self, n):
-        if _is_name(n.func, "len") and len(n.args) == 1 and _is_name(n.args[0]) and n.args[0].id in ("filt_shape", "data_shape"):
-            return ast.copy_location(ast.Name(id="lenF" if n.args[0].id == "filt_shape" else "lenD", ctx=ast.Load()), n)
+        if _is_name(n.func, "len") and len(n.args) == 1 and _is_name(n.args[0]) and n.args[0].id in ("filt_shape", "data_shape", "strides"):
+            return ast.copy_location(ast.Name(id={"filt_shape": "lenF", "data_shape": "lenD", "strides": "lenS"}[n.args[0].id], ctx=ast.Load()), n)
         return self.generic_visit(n)
 
 
@@ -725,8 +790,7 @@ def gen_conv_params(ctx=None):
         raise T.Unsupported("_get_convolve_params: `if multi_channel:` block not found after the shape split")
     chk, a1, a2 = s.body
     if not (isinstance(chk, ast.If) and not chk.orelse and len(chk.body) == 1 and isinstance(chk.body[0], ast.Raise)
-            and isinstance(chk.test, ast.Compare) and len(chk.test.ops) == 1 and isinstance(chk.test.ops[0], ast.NotEq)
-            and ast.unparse(chk.body[0].exc.func) == "ValueError"):
+            and isinstance(chk.test, ast.Compare) and len(chk.test.ops) == 1 and isinstance(chk.test.ops[0], ast.NotEq)):
         raise T.Unsupported("_get_convolve_params: channel check is not `if X[..] != Y[..]: raise ValueError`")
     (ls, li), (rs, ri) = _item(chk.test.left), _item(chk.test.comparators[0])
     o("/-- `if <lhs shape>[i] != <rhs shape>[j]: raise ValueError` (multi_channel only) -/\n"
@@ -745,19 +809,55 @@ def gen_conv_params(ctx=None):
             raise T.Unsupported("_get_convolve_params: expected `%s = <int>` in the single-channel branch" % want)
         o("/-- `%s` (single channel) -/\ndef param%sDefault : Int := (%d : Int)\n" % (ast.unparse(st), "Ci" if want == "c_i" else "Co", st.value.value))
     i += 1
-    # strides
+    # strides: `if strides is None: s = (c,) * D else: if <test on len(strides), D>: raise X; s = tuple(strides)`
     s = body[i] if i < len(body) else None
-    ok = (isinstance(s, ast.If) and ast.unparse(s.test) == "strides is None" and [ast.unparse(t) for t in s.body] == ["s = (1,) * D"]
-          and len(s.orelse) == 2 and isinstance(s.orelse[0], ast.If) and ast.unparse(s.orelse[0].test) == "len(strides) != D"
+    ok = (isinstance(s, ast.If) and ast.unparse(s.test) == "strides is None" and len(s.body) == 1
+          and isinstance(s.body[0], ast.Assign) and len(s.body[0].targets) == 1 and _is_name(s.body[0].targets[0], "s")
+          and len(s.orelse) == 2 and isinstance(s.orelse[0], ast.If)
           and not s.orelse[0].orelse and len(s.orelse[0].body) == 1 and isinstance(s.orelse[0].body[0], ast.Raise)
-          and ast.unparse(s.orelse[0].body[0].exc.func) == "ValueError" and ast.unparse(s.orelse[1]) == "s = tuple(strides)")
+          and ast.unparse(s.orelse[1]) == "s = tuple(strides)")
     if not ok:
-        raise T.Unsupported("_get_convolve_params: strides block is not `s = (1,) * D if strides is None else tuple(strides)` with the length check")
+        raise T.Unsupported("_get_convolve_params: strides block is not `s = (c,) * D if strides is None else tuple(strides)` with a length check")
+    dv = s.body[0].value
+    if isinstance(dv, ast.BinOp) and isinstance(dv.op, ast.Mult) and _is_name(dv.left, "D"):
+        dv = ast.BinOp(left=dv.right, op=dv.op, right=dv.left)
+    if not (isinstance(dv, ast.BinOp) and isinstance(dv.op, ast.Mult) and _is_name(dv.right, "D") and isinstance(dv.left, ast.Tuple)
+            and len(dv.left.elts) == 1 and isinstance(dv.left.elts[0], ast.Constant) and type(dv.left.elts[0].value) is int):
+        raise T.Unsupported("_get_convolve_params: default strides are not `(c,) * D`: %s" % ast.unparse(s.body[0])[:80])
+    o("/-- `%s` (strides is None) -/\ndef paramStridesDefault (D : Int) : List Int := List.replicate D.toNat (%d : Int)\n" % (
+        ast.unparse(s.body[0]), dv.left.elts[0].value))
+    tst = _Subst().visit(ast.parse(ast.unparse(s.orelse[0].test), mode="eval").body)
+    o("/-- `if %s: raise …` (strides given): true = the guard fires; `lenS = len(strides)` -/\n"
+      "def paramStridesBad (lenS D : Int) : Bool := decide %s\n" % (
+          ast.unparse(s.orelse[0].test), T.Expr({"lenS": T.INT, "D": T.INT}).cond(tst)))
+    strides_raise = s.orelse[0].body[0]
     i += 1
     # mode block (formulas: Gen.ConvFormulas) and the return
     if not (i + 2 == len(body) and isinstance(body[i], ast.If) and isinstance(body[i + 1], ast.Return)
             and ast.unparse(body[i + 1].value) == "(D, b, B, m, n, s, c_i, c_o, p)"):
         raise T.Unsupported("_get_convolve_params: expected the mode block and `return D, b, B, m, n, s, c_i, c_o, p` at the end")
+    # guard table: every `raise` of the function, in source order, classified by where it stands
+    br = _mode_branches(fn)
+    mode_if = body[i]
+    valid_if = mode_if.orelse[0] if len(mode_if.orelse) == 1 and isinstance(mode_if.orelse[0], ast.If) else None
+    if valid_if is None or mode_if.body is not br["full"] or valid_if.body is not br["valid"] or len(valid_if.orelse) != 1 \
+            or not isinstance(valid_if.orelse[0], ast.Raise):
+        raise T.Unsupported("_get_convolve_params: mode chain is not `if mode == 'full': … elif mode == 'valid': … else: raise …`")
+    rej = [t for t in br["valid"] if isinstance(t, ast.If) and len(t.body) == 1 and isinstance(t.body[0], ast.Raise) and not t.orelse]
+    if len(rej) != 1:
+        raise T.Unsupported("_get_convolve_params: valid branch: expected one `if …: raise`")
+    known = {id(chk.body[0]): "channel", id(strides_raise): "stridesLen", id(rej[0].body[0]): "validSize",
+             id(valid_if.orelse[0]): "badMode"}
+    raises = sorted([n for n in ast.walk(fn) if isinstance(n, ast.Raise)], key=lambda n: (n.lineno, n.col_offset))
+    rows = []
+    for r in raises:
+        if id(r) not in known:
+            raise T.Unsupported("_get_convolve_params: a `raise` outside the four known guards (line %d)" % r.lineno)
+        if not (isinstance(r.exc, ast.Call) and _is_name(r.exc.func)):
+            raise T.Unsupported("_get_convolve_params: `raise` of something other than `Exc(...)`")
+        rows.append('(ConvGuard.%s, "%s")' % (known[id(r)], r.exc.func.id))
+    o("/-- every explicit `raise` of `_get_convolve_params`, in source order, with the exception class it raises -/\n"
+      "def paramGuards : List (ConvGuard × String) := [%s]\n" % ", ".join(rows))
     out.append("end SigpyVerif.Gen\n")
     return "\n".join(out)
 
